@@ -1,9 +1,12 @@
 import SaphyrModel.Parser2
+import SaphyrModel.Proofs.OpenQuote
+import SaphyrModel.Sc.KS.Flow
 /-! # C06 — Ill-formed YAML is rejected (component theorems, parser level)
 
 Each theorem is about the component that rejects one damage class of the property, for **every**
-parser state / token stream it quantifies over. The scanner-level classes (unclosed quotes, tab
-indentation, over-long keys, …) are not covered by theorems here: for them the check relies on correspondence + oracle. The full property
+parser state / token stream it quantifies over. Of the scanner-level classes, "a quoted scalar still open at
+end of input" is proved for every text (`open_quoted_scalar_rejected`); the others (tab indentation, over-long
+keys, …) are not covered by theorems here: for them the check relies on correspondence + oracle. The full property
 quantifies over the generator's damage operators (text transformers), so it has no closed Lean form. -/
 namespace SaphyrModel.C06
 open SaphyrModel
@@ -134,5 +137,35 @@ theorem mismatched_bracket_rejected (p : PState) (sp : Span) (rest : List Token)
     (p.toks = ⟨sp, .flowSequenceEnd⟩ :: rest → ∃ e, flowMappingKey p false = .err e) :=
   ⟨fun h => open_flow_sequence_rejected p _ rest h (by simp) (by simp),
    fun h => open_flow_mapping_rejected p _ rest h (by simp) (by simp)⟩
+
+open SaphyrModel.Sc in
+/-- **A quoted scalar still open at the end of the input is rejected — for every text.** On a string input,
+    standing at an opening quote (single or double): if the closing quote character of that style does not occur
+    anywhere in the rest of the input — whatever else does: escapes, line breaks, blank lines, document markers,
+    any number of lines — then `scan_flow_scalar` returns no token: the result is a scan error (or the model runs
+    out of the fuel it was given / stops at a structural site, which C01 excludes). Proof: the loop of the scanner
+    has one normal exit, taken only when the character just looked at is the closing quote, and the scanner only
+    ever moves forward through the text (`Proofs/OpenQuote.lean`). -/
+theorem open_quoted_scalar_rejected (single : Bool) (u : Sc) (hk : u.inp.kind = .str)
+    (hopen : quoteOf single ∉ u.inp.iter.tail) :
+    match scanFlowScalar single u with
+    | .ok _ => False
+    | .err _ => True
+    | .panic p => OkSite p := by
+  have hks := (KS.scanFlowScalar single).out u hk
+  cases h : scanFlowScalar single u with
+  | ok r =>
+    obtain ⟨tok, u'⟩ := r
+    exact hopen (scanFlowScalar_ok_has_quote single u hk tok u' h)
+  | err e => trivial
+  | panic p => simp only [h] at hks; exact hks
+
+open SaphyrModel.Sc in
+/-- non-vacuity: `"a\"b` + line feed + ` c` (the only double quote after the opening one is escaped away… here
+    there is none at all): an error, not a token -/
+example :
+    (match scanFlowScalar false { mkSc .str 0 ['"','a','\\','n','b','\n',' ','c'] with mark := ⟨3, 1, 3⟩ } with
+     | .err e => e.info == "while scanning a quoted scalar, found unexpected end of stream"
+     | _ => false) = true := by decide +kernel
 
 end SaphyrModel.C06
